@@ -637,6 +637,12 @@ def read_walk(fn):
         inits[stmts[k].targets[0].id] = [ast.unparse(e) for e in stmts[k].value.elts]
         k += 1
     rest = stmts[k:-1]
+    # a local cursor initialised from `self` (instead of walking with `self` itself): the walk starts on the root either way
+    cursor_alias = None
+    if len(rest) == 2 and isinstance(rest[0], ast.Assign) and len(rest[0].targets) == 1 and isinstance(rest[0].targets[0], ast.Name) \
+            and ast.unparse(rest[0].value) == 'self':
+        cursor_alias = rest[0].targets[0].id
+        rest = rest[1:]
     if inits.get(out) != [] or len(inits) != 2 or len(rest) != 1 or not isinstance(rest[0], ast.While):
         return U('not `out = []; stack = [...]; while …; return out`')
     stack = next(n for n in inits if n != out)
@@ -649,6 +655,9 @@ def read_walk(fn):
             cur = n.targets[0].id
     if cur is None:
         return U('no cursor')
+    if (cursor_alias is not None and cursor_alias != cur) or (cursor_alias is None and cur != 'self' and inits[stack] == []):
+        # the cursor must be `self`, or a local that starts as `self`, or (pre-order style) be filled from the stack first
+        return U('cursor is not initialised from self')
 
     def expr(e):
         u = ast.unparse(e)
